@@ -34,7 +34,7 @@ Inductive mkind :=
 Inductive rkind :=
 | RAuto       (* decorated with provide_context_if_needed: blocks, get_block, [], the getters, has_*, repr, == *)
 | RPlain      (* no decorator: len, nBytes, copy *)
-| REq.        (* ==: reads self.version first (AttributeError before any context was ever entered), then .blocks *)
+| REq.        (* ==: evaluates .blocks of both operands (each providing its own context when outside one), then compares *)
 
 Inductive acall :=
 | AllowWrite
@@ -88,11 +88,8 @@ Definition a_step (s : astate) (c : acall) : bool * astate :=
       if x_inside s then (false, s)
       else implicit s                          (* with self: ... — opened, used, closed; refused if not a TDF file *)
   | Reader RPlain => (false, s)
-  | Reader REq =>
-      match x_handle s with
-      | HNone => (false, s)
-      | _ => if x_inside s then (false, s) else implicit s
-      end
+  | Reader REq =>                                (* ==: both operands' .blocks first — an implicit context when outside *)
+      if x_inside s then (false, s) else implicit s
   | Clobber => (false, mkAS (x_mode s) (x_inside s) (x_handle s) (x_disk s) (g_allowed s) (g_wctx s) false)
   | Restore => (false, mkAS (x_mode s) (x_inside s) (x_handle s) (x_disk s) (g_allowed s) (g_wctx s) true)
   | CopySwitch => (false, mkAS RB false HNone (x_disk s) false false (x_valid s))
